@@ -678,6 +678,14 @@ def ldu(load_v, name):
   rules_qn.support(model, rep, 'QN-SUPPORT')
 
   # ---------------------------------------------------------------- dependencies
+  # ---------------------------------------------------------------- FOLD
+  # and_ / or_ take zero-argument callables: the folds of n-ary boolean
+  # operations and comparison chains hand every operand over as a lambda
+  from sa import rules_fold
+  rep.rule('FOLD', 'n-ary boolean operations and comparison chains are folded into '
+           'nested operator calls whose operands are lambdas', floor=6)
+  rules_fold.check(model, rep, 'FOLD')
+
   rep.depends('C07', ['LV-TRANSFER', 'LV-CLOSURE', 'LV-BLOCK'],
               'nouts and the outputs-first order are computed from the LIVE_VARS_IN / '
               'LIVE_VARS_OUT annotations of the statement')
